@@ -128,6 +128,10 @@ pub struct Version {
     pub ee_after_off: i64,
     pub objs: Vec<Obj>,
     pub fault: Option<PpFault>,
+    /// indices of child CAs whose certificate this version does NOT publish (neither listed on the
+    /// manifest nor present as a file): the child "vanishes" from / has not yet "appeared" in the tree
+    #[serde(default, skip_serializing_if = "Vec::is_empty")]
+    pub omit_children: Vec<usize>,
 }
 
 #[derive(Serialize, Deserialize, Clone, Debug, PartialEq, Eq)]
@@ -566,6 +570,9 @@ impl World {
         // child CA certificates
         for (j, child) in sc.cas.iter().enumerate() {
             if child.parent == Some(ca) {
+                if ver.omit_children.contains(&j) {
+                    continue;
+                }
                 let name = format!("ca{}.cer", j);
                 let bytes = self.ca_certs[&j].clone();
                 if child.cert_fault == Some(CertFault::Revoked) {
@@ -778,10 +785,27 @@ impl World {
     }
 
     pub fn config(&self) -> Config {
-        let cfg = &self.sc.cfg;
-        let mut c = Config::default_with_paths(self.dir.path().join("routinator.conf"), self.cache());
+        config_for(&self.sc.cfg, &WorldPaths { conf: self.dir.path().join("routinator.conf"), cache: self.cache(), tals: self.dir.path().join("tals"), srv: self.srv(), rsync_log: self.rsync_log(), rsync_bin: self.rsync_bin.clone() })
+    }
+}
+
+/// The directories a run needs; lets another process (or a copy of a cache) run a step of a world.
+#[derive(Serialize, Deserialize, Clone, Debug)]
+pub struct WorldPaths {
+    pub conf: PathBuf,
+    pub cache: PathBuf,
+    pub tals: PathBuf,
+    pub srv: PathBuf,
+    pub rsync_log: PathBuf,
+    pub rsync_bin: PathBuf,
+}
+
+/// The configuration `World::config` uses, over explicit paths.
+pub fn config_for(cfg: &Cfg, paths: &WorldPaths) -> Config {
+    {
+        let mut c = Config::default_with_paths(paths.conf.clone(), paths.cache.clone());
         c.no_rir_tals = true;
-        c.extra_tals_dir = Some(self.dir.path().join("tals"));
+        c.extra_tals_dir = Some(paths.tals.clone());
         c.strict = cfg.strict;
         c.stale = policy(cfg.stale);
         c.unsafe_vrps = policy(cfg.unsafe_vrps);
@@ -793,11 +817,17 @@ impl World {
         c.validation_threads = cfg.threads.max(1);
         c.dirty_repository = cfg.dirty;
         c.disable_rrdp = true;
-        c.rsync_command = self.rsync_bin.to_string_lossy().into_owned();
-        c.rsync_args = Some(vec![format!("--rv-root={}", self.srv().display()), format!("--rv-log={}", self.rsync_log().display())]);
+        c.rsync_command = paths.rsync_bin.to_string_lossy().into_owned();
+        c.rsync_args = Some(vec![format!("--rv-root={}", paths.srv.display()), format!("--rv-log={}", paths.rsync_log.display())]);
         c.rsync_timeout = Some(std::time::Duration::from_secs(30));
         c.log_repository_issues = std::env::var_os("RV_LOG").is_some();
         c
+    }
+}
+
+impl World {
+    pub fn paths(&self) -> WorldPaths {
+        WorldPaths { conf: self.dir.path().join("routinator.conf"), cache: self.cache(), tals: self.dir.path().join("tals"), srv: self.srv(), rsync_log: self.rsync_log(), rsync_bin: self.rsync_bin.clone() }
     }
 
     /// One engine run over the persistent cache.
@@ -808,10 +838,17 @@ impl World {
     pub fn run_with(&self, offline: bool, exceptions: &LocalExceptions, tweak: impl FnOnce(&mut Config)) -> Result<RunOutput, String> {
         let mut config = self.config();
         tweak(&mut config);
-        let mut engine = Engine::new(&config, !offline).map_err(|_| "Engine::new failed".to_string())?;
+        run_config(&config, offline, exceptions)
+    }
+}
+
+/// One engine run with an explicit configuration (what `World::run_with` does).
+pub fn run_config(config: &Config, offline: bool, exceptions: &LocalExceptions) -> Result<RunOutput, String> {
+    {
+        let mut engine = Engine::new(config, !offline).map_err(|_| "Engine::new failed".to_string())?;
         engine.ignite().map_err(|_| "ignite failed".to_string())?;
         let started = std::time::Instant::now();
-        let (report, mut metrics) = ValidationReport::process(&engine, &config, false).map_err(|e| format!("run failed (fatal={})", e.is_fatal()))?;
+        let (report, mut metrics) = ValidationReport::process(&engine, config, false).map_err(|e| format!("run failed (fatal={})", e.is_fatal()))?;
         let snapshot = report.into_snapshot(exceptions, &mut metrics);
         let payload = MSet::from_snapshot(&snapshot).map_err(|e| format!("snapshot has duplicates: {}", e))?;
         Ok(RunOutput { payload, refresh: snapshot.refresh(), snapshot, metrics, elapsed: started.elapsed() })
@@ -968,7 +1005,8 @@ pub fn model_step(sc_in: &Scenario, step: &Step, state: &mut ModelState) -> Expe
         // chain accepted?
         let parent_ok = match ca.parent {
             None => true,
-            Some(p) => exp.accepted.contains_key(&p),
+            // the parent's point was accepted and the version used publishes this CA's certificate
+            Some(p) => exp.accepted.get(&p).map(|(pv, _)| !sc.cas[p].versions[*pv].omit_children.contains(&i)).unwrap_or(false),
         };
         if !parent_ok || !cert_ok(sc, i) {
             exp.skipped.insert(i);
@@ -1165,15 +1203,27 @@ pub struct StoredView {
     pub objects: BTreeMap<String, Bytes>,
 }
 
+/// Path of the stored publication point of CA `ca` below the cache directory `cache`.
+pub fn stored_path_in(sc: &Scenario, cache: &Path, ca: usize) -> PathBuf {
+    cache.join("stored/rsync/rsync").join(host(sc.cas[ca].module)).join("repo").join(format!("ca{}/ca{}.mft", ca, ca))
+}
+
 impl World {
     pub fn stored_path(&self, ca: usize) -> PathBuf {
-        self.cache().join("stored/rsync/rsync").join(host(self.sc.cas[ca].module)).join("repo").join(format!("ca{}/ca{}.mft", ca, ca))
+        stored_path_in(&self.sc, &self.cache(), ca)
     }
 
     /// Reads the stored publication point of a CA with routinator's own reader.
     /// Ok(None) = no file or never-successful header; Err = file present but unreadable.
     pub fn read_stored(&self, ca: usize) -> Result<Option<StoredView>, String> {
-        let path = self.stored_path(ca);
+        read_stored_file(&self.stored_path(ca))
+    }
+}
+
+/// Reads a stored publication point file with routinator's own reader (see `World::read_stored`).
+pub fn read_stored_file(path: &Path) -> Result<Option<StoredView>, String> {
+    {
+        let path = path.to_path_buf();
         if !path.exists() {
             return Ok(None);
         }
@@ -1195,7 +1245,9 @@ impl World {
         }
         Ok(Some(StoredView { manifest, crl, objects }))
     }
+}
 
+impl World {
     /// What the store must hold for version `v` of CA `ca` (a complete version).
     pub fn expected_stored(&mut self, ca: usize, v: usize) -> StoredView {
         let dir = ca_dir_uri(&self.sc, ca).to_string();
